@@ -22,9 +22,9 @@ import (
 )
 
 type (
-	FileInfo = fs.FileInfo
-	FileMode = fs.FileMode
-	DirEntry = fs.DirEntry
+	FileInfo  = fs.FileInfo
+	FileMode  = fs.FileMode
+	DirEntry  = fs.DirEntry
 	PathError = fs.PathError
 )
 
@@ -100,12 +100,12 @@ type Outcome struct {
 
 // FS is one simulated disk.
 type FS struct {
-	root     *inode
-	nextIno  uint64
-	aliases  [][2]string // path prefix alias -> real prefix
-	journal  []metaOp    // namespace operations not yet durable
-	durRoot  *inode      // durable namespace (rebuilt lazily from a snapshot + journal)
-	OpSeq    int
+	root    *inode
+	nextIno uint64
+	aliases [][2]string // path prefix alias -> real prefix
+	journal []metaOp    // namespace operations not yet durable
+	durRoot *inode      // durable namespace (rebuilt lazily from a snapshot + journal)
+	OpSeq   int
 	// Frozen: the process that used this disk is gone (crash instant passed);
 	// every os-level call fails without effect until Thaw.
 	Frozen bool
@@ -114,9 +114,9 @@ type FS struct {
 	// Watch receives namespace and write notifications (simnotify).
 	Watch func(event string, p string)
 	// Log of I/O operations (bounded), for diagnostics.
-	Trace     []Op
-	TraceOn   bool
-	Cwd       string
+	Trace                              []Op
+	TraceOn                            bool
+	Cwd                                string
 	WriteCount, SyncCount, RenameCount int
 }
 
